@@ -10,7 +10,9 @@ Definition shared_types : list string :=
    "ExtendLgtHolder"; "RangeIdx"; "RangeEntries"; "Range"; "RangePlList"; "IvtBEIndexer"; "DefaultBEContainer"; "ACBEContainer";
    "FieldDesc"; "FieldMeta"; "FieldSetting"; "IndexerBuilder"; "IvtBEIndexerBuilder"; "IDAllocatorImpl"; "HashAllocator";
    "CommonStrParser"; "NumberParser"; "NumberRangeParser"; "StrHashParser"; "Entries"; "Machine"; "BuilderOption"; "RangeHolderOption";
-   "ACHolderOption"; "Term"].
+   "ACHolderOption"; "Term";
+   (* the caller's query object: not the index's, but nothing stops two retrievals from being handed the same one *)
+   "Assignments"].
 
 Definition is_global (owner : string) : bool := String.prefix "global:" owner.
 Definition is_shared (owner : string) : bool := existsb (String.eqb owner) shared_types || is_global owner.
